@@ -29,7 +29,7 @@ CONSTANTS
  MCLOps <- LOpsConn
  MCToks <- T1
  MCProvAns <- PAOkErr
- MCCancel = TRUE
+ MCCancel = FALSE
  MCVOps <- VOpsAll
  MCVAns <- VAOk
 INVARIANTS Safety
